@@ -9721,7 +9721,9 @@ void CallasDonnerhackeFinneyShawThayerRFC4880::PacketSecEncode
 		if (ret)
 			return;
 		plain.insert(plain.end(), hash.begin(), hash.end()); // hash
-		unsigned char *buf = (unsigned char*)gcry_malloc_secure(plain.size());
+		// the buffer also holds the 32-octet key before it takes the plaintext
+		unsigned char *buf = (unsigned char*)gcry_malloc_secure(
+			(plain.size() < 32) ? 32 : plain.size());
 		if (buf == NULL)
 			return; // cannot allocate secure memory
 		gcry_cipher_hd_t hd;
@@ -9870,7 +9872,9 @@ void CallasDonnerhackeFinneyShawThayerRFC4880::PacketSecEncodeExperimental108
 		if (ret)
 			return;
 		plain.insert(plain.end(), hash.begin(), hash.end()); // hash
-		unsigned char *buf = (unsigned char*)gcry_malloc_secure(plain.size());
+		// the buffer also holds the 32-octet key before it takes the plaintext
+		unsigned char *buf = (unsigned char*)gcry_malloc_secure(
+			(plain.size() < 32) ? 32 : plain.size());
 		if (buf == NULL)
 			return; // cannot allocate secure memory
 		gcry_cipher_hd_t hd;
@@ -10033,7 +10037,9 @@ void CallasDonnerhackeFinneyShawThayerRFC4880::PacketSecEncodeExperimental107
 		if (ret)
 			return;
 		plain.insert(plain.end(), hash.begin(), hash.end()); // hash
-		unsigned char *buf = (unsigned char*)gcry_malloc_secure(plain.size());
+		// the buffer also holds the 32-octet key before it takes the plaintext
+		unsigned char *buf = (unsigned char*)gcry_malloc_secure(
+			(plain.size() < 32) ? 32 : plain.size());
 		if (buf == NULL)
 			return; // cannot allocate secure memory
 		gcry_cipher_hd_t hd;
@@ -10455,7 +10461,9 @@ void CallasDonnerhackeFinneyShawThayerRFC4880::PacketSsbEncode
 		if (ret)
 			return;
 		plain.insert(plain.end(), hash.begin(), hash.end()); // hash
-		unsigned char *buf = (unsigned char*)gcry_malloc_secure(plain.size());
+		// the buffer also holds the 32-octet key before it takes the plaintext
+		unsigned char *buf = (unsigned char*)gcry_malloc_secure(
+			(plain.size() < 32) ? 32 : plain.size());
 		if (buf == NULL)
 			return; // cannot allocate secure memory
 		gcry_cipher_hd_t hd;
@@ -10601,7 +10609,9 @@ void CallasDonnerhackeFinneyShawThayerRFC4880::PacketSsbEncodeExperimental109
 		if (ret)
 			return;
 		plain.insert(plain.end(), hash.begin(), hash.end()); // hash
-		unsigned char *buf = (unsigned char*)gcry_malloc_secure(plain.size());
+		// the buffer also holds the 32-octet key before it takes the plaintext
+		unsigned char *buf = (unsigned char*)gcry_malloc_secure(
+			(plain.size() < 32) ? 32 : plain.size());
 		if (buf == NULL)
 			return; // cannot allocate secure memory
 		gcry_cipher_hd_t hd;
